@@ -75,21 +75,25 @@ def measure_facts(workdir):
         for b in 'NPM':
             if a == b:
                 continue
-            for dt in ('f4', 'f8'):
+            for dt in ('f4', 'f8', 'i2', 'u1'):
                 if a == 'M' and dt == 'f8':
                     continue
                 img = K[a](data.astype(np.float32 if a == 'M' else np.float64), aff)
-                img.set_data_dtype({'f4': np.float32, 'f8': np.float64}[dt])
+                img.set_data_dtype({'f4': np.float32, 'f8': np.float64, 'i2': np.int16, 'u1': np.uint8}[dt])
                 fn = os.path.join(d, f'c_{a}{b}{dt}' + EXT[b])
                 try:
                     nib.save(img, fn)
                 except Exception:
                     continue
                 r = np.dtype(nib.load(fn).get_data_dtype())
-                if (r.kind, r.itemsize) not in (('f', 4), ('f', 8)):
+                names = {('f', 4): 'f4', ('f', 8): 'f8', ('i', 2): 'i2', ('u', 1): 'u1'}
+                if (r.kind, r.itemsize) not in names:
                     raise RuntimeError(f'conversion {a}->{b} of {dt} gives {r}: outside the modelled dtypes')
-                conv.append((a, b, dt, 'f%d' % r.itemsize))
-    FACTS.update(off=off, foot=foot, conv=conv, page=mmap.PAGESIZE)
+                conv.append((a, b, dt, names[(r.kind, r.itemsize)]))
+    # classes whose header has a slope but no intercept field (the writer cannot shift the data)
+    nointer = {f: bool(getattr(K[f].header_class, 'has_data_slope', False) and
+                       not getattr(K[f].header_class, 'has_data_intercept', False)) for f in 'NPMA'}
+    FACTS.update(off=off, foot=foot, conv=conv, page=mmap.PAGESIZE, nointer=nointer)
     import shutil
     shutil.rmtree(d, ignore_errors=True)
     return FACTS
@@ -117,8 +121,14 @@ def gen_tables():
            f'Definition platform_page : Z := {f["page"]}.',
            'Definition platform_conv : list (fmt * fmt * dtype * dtype) := [' +
            '; '.join(f'({fm[a]}, {fm[b]}, {d.upper()}, {r.upper()})' for a, b, d, r in f['conv']) + '].',
-           'Definition platform_cfg (n : Z) (paths : list pinfo) (fids : list nat) (fx : bool) : cfg :=',
-           '  mkCfg n platform_page paths fids platform_off platform_foot platform_conv fx.', '']
+           'Definition platform_nointer (f : fmt) : bool := match f with ' +
+           ' | '.join(f'{fm[k]} => {"true" if f["nointer"][k] else "false"}' for k in 'NPMA') + ' end.',
+           '(* scale: the scale identities the array writers compute, per history; mixed: data of both signs;',
+           '   lowdim: fewer than three axes *)',
+           'Definition platform_cfg (n : Z) (paths : list pinfo) (fids : list nat) (fx : bool)',
+           '    (scale : list (fmt * dtype * nat * nat)) (mixed lowdim : bool) : cfg :=',
+           '  mkCfg n platform_page paths fids platform_off platform_foot platform_conv fx scale platform_nointer',
+           '        mixed lowdim true.', '']
     p = os.path.join(common.COQ, 'C09', 'Tables.v')
     new = '\n'.join(txt)
     if not os.path.exists(p) or open(p).read() != new:
@@ -170,25 +180,74 @@ CONFIGS = {
     'mgh-links2': [path('a.mgh', 'M', (0, 'f4', 0)), path('a.mgh', 'M', link=('abs', 0)), path('b.mgh', 'M', (1, 'f4', 1))],
 }
 LINK_CONFIGS = [c for c in CONFIGS if 'links' in c]
-UNMODELLED = ('fault_int16', 'scaled_lowdim', 'refused_save')
+UNMODELLED = ()      # every family is in the symbolic model now
 LOWDIM_SHAPES = [(24,), (4, 6), (4096,), (64, 64)]
 ARRAY_SLOT = dict(v=2, fmt='N', dt='f8', aff=2)
 ARRAY_SLOT_SPM = dict(v=2, fmt='A', dt='f8', aff=3)
 
 ALPHA = ['L00T', 'L00F', 'L01T', 'L10T', 'L11T', 'F0', 'F1', 'U0', 'E0', 'D0', 'D1', 'S00', 'S01', 'S10', 'S11', 'B0']
-ALL_OPS = [f'L{s}{p}{m}' for s in '01' for p in '012' for m in 'TF'] + [f'{k}{s}' for k in 'FUEDBX' for s in '01'] + \
+ALL_OPS = [f'L{s}{p}{m}' for s in '01' for p in '012' for m in 'TF'] + [f'{k}{s}' for k in 'FUEDBXI' for s in '01'] + \
     [f'S{s}{p}' for s in '01' for p in '012']
 
 
-def model_line(hid, cfgname, shape, imgs, ops, facts, fix=1):
+PRESET = (0.5, 0.5)      # slope, intercept of the 'i2s' sources (raw 2V-1 decodes to V)
+_SCALE_CACHE = {}
+
+
+def scale_table(shape, shift):
+    """The scale factors nibabel's array writers compute for each (class, integer dtype, value array) of a history:
+    ([(fmt, dt, v, id)], [[slope, inter, id]]); id 1 is the preset of the 'i2s' sources."""
+    key = (tuple(shape), shift)
+    if key in _SCALE_CACHE:
+        return _SCALE_CACHE[key]
+    import c09_child
+    from nibabel.arraywriters import WriterError, get_slope_inter, make_array_writer
+    c09_child.SHIFT[0] = shift
+    ids = {PRESET: 1}
+    rows = []
+    for f, (hs, hi) in (('N', (True, True)), ('P', (True, True)), ('A', (True, False))):
+        for dt in ('i2', 'u1'):
+            for v in range(c09_child.NVAL):
+                data = c09_child.value(v, shape).astype(np.float64)
+                try:
+                    w = make_array_writer(data, np.dtype({'i2': np.int16, 'u1': np.uint8}[dt]), hs, hi)
+                except WriterError:
+                    continue
+                sl, it = get_slope_inter(w)
+                k = (float(1.0 if sl is None else sl), float(0.0 if it is None else it))
+                if k == (1.0, 0.0):
+                    rows.append((f, dt, v, 0))
+                    continue
+                k = (float('%.6g' % k[0]), float('%.6g' % k[1]))
+                if k not in ids:
+                    ids[k] = len(ids) + 1
+                rows.append((f, dt, v, ids[k]))
+    c09_child.SHIFT[0] = 0
+    out = (rows, [[a, b, i] for (a, b), i in ids.items()])
+    _SCALE_CACHE[key] = out
+    return out
+
+
+def history_flags(shape, tag, ops, cfgname):
+    shift = 10 if tag == 'refused_save' else 0
+    approx = any(t[0] in 'IW' for t in ops) or any(p['init'] is not None and p['init'][1] == 'i2s' for p in CONFIGS[cfgname])
+    return shift, approx
+
+
+def model_line(hid, cfgname, shape, imgs, ops, facts, fix=1, shift=0):
     paths = CONFIGS[cfgname]
     n = int(np.prod(shape))
     conv = ';'.join(f'{a}:{b}:{d}:{r}' for a, b, d, r in facts['conv']) or '-'
+    rows, _ = scale_table(shape, shift)
+    scale = ';'.join(f'{f}:{d}:{v}:{k}' for f, d, v, k in rows) or '-'
+    flags = f"{int(shift != 0)}{int(len(shape) < 3)}1"
     return (f"{hid} run {fix} {facts['page']} {n} " + ','.join(str(facts['off'][k]) for k in 'NPMA') + ' ' +
-            ','.join(str(facts['foot'][k]) for k in 'NPMA') + ' ' + conv + ' ' +
+            ','.join(str(facts['foot'][k]) for k in 'NPMA') + ' ' + conv + ' ' + scale + ' ' +
+            ''.join(str(int(facts['nointer'][k])) for k in 'NPMA') + ' ' + flags + ' ' +
             ','.join(p['fmt'] + str(int(p['gz'])) for p in paths) + ' ' +
             ','.join(str(i) for i in file_ids(paths)) + ' ' +
-            ','.join('-' if p['init'] is None else '%d:%s:%d' % p['init'] for p in paths if p['link'] is None) + ' ' +
+            ','.join('-' if p['init'] is None else ('%d:i2:%d:1' % (p['init'][0], p['init'][2]) if p['init'][1] == 'i2s' else
+                                                    '%d:%s:%d' % p['init']) for p in paths if p['link'] is None) + ' ' +
             ','.join('-' if s is None else f"A:{s['v']}:{s['fmt']}:{s['dt']}:{s['aff']}" for s in imgs) + ' ' +
             ' '.join(ops))
 
@@ -295,8 +354,8 @@ def tok_match(m, i):
         return False
     if mp[0] == 'val':
         return mp[1] == 'G'
-    if mp[0] == 'saved':
-        return mp[1] == ip[1] and mp[2] == 'G' and mp[3:] == ip[3:]
+    if mp[0] == 'saved':      # garbage data: neither the value nor the scale factors computed from it are compared
+        return mp[1] == ip[1] and mp[2] == 'G' and mp[3:5] == ip[3:5]
     if mp[0] == 'bytes':
         return mp[1] == 'G' and mp[2:] == ip[2:]
     return False
@@ -433,8 +492,8 @@ def run(chk: Check):
                 'saves; SPM2 Analyze triples with an oblique and a header-derived affine saved onto the same names in '
                 'every order; saves that fail with ENOSPC (link to /dev/full) followed by healthy ones; the same with an '
                 'int16 on-disk dtype, scaled int16 1-D / 2-D sources moved NIfTI -> MGH/MGZ -> NIfTI, and saves SPM Analyze must '
-                'refuse (uint8 storage of mixed-sign data) onto own and earlier files (these three families: predicate only, '
-                'not modelled). Random: depth 4..10 over all 38 ops and 3 paths. A history is '
+                'refuse (uint8 storage of mixed-sign data) onto own and earlier files (all in the symbolic model: integer '
+                'dtypes with scale identities measured from the array writers). Random: depth 4..10 over all 38 ops and 3 paths. A history is '
                 'non-trivial when it contains at least one successful save; distinct by (configuration, size, history)')
     chk.assumptions = ['voxel values are small integers exact in float32/float64; every image of a history has the same '
                        'shape; on-disk dtypes float32/float64 only (integer dtypes would bring C02 scaling into play)',
@@ -460,17 +519,19 @@ def run(chk: Check):
                                    'conversions': ['%s->%s %s=>%s' % c for c in facts['conv']]}
     plan, n_exh = plan_cases(chk)
     chk.extra['exhaustive_core'] = {'histories': n_exh, 'alphabet': ALPHA}
-    jobs = [dict(id=k, shape=list(shape), paths=CONFIGS[cfgname], imgs=imgs, ops=ops, shift=10 if tag == 'refused_save' else 0,
-                 approx=tag in UNMODELLED)
-            for k, (cfgname, shape, imgs, ops, tag) in enumerate(plan)]
+    jobs = []
+    for k, (cfgname, shape, imgs, ops, tag) in enumerate(plan):
+        shift, approx = history_flags(shape, tag, ops, cfgname)
+        jobs.append(dict(id=k, shape=list(shape), paths=CONFIGS[cfgname], imgs=imgs, ops=ops, shift=shift, approx=approx,
+                         scales=scale_table(shape, shift)[1]))
     # interleave so that every child gets a mix (crashing histories are spread over the batches)
     nproc = int(os.environ.get('VERIF_C09_PROCS', '10' if chk.tier == 'quick' else '12'))
     impl, stats = run_children(jobs, chk.workdir, nproc, crash_cap=60 if chk.tier == 'quick' else 1500)
     chk.extra['child_processes'] = stats
     chk.extra['timing_s'] = {'build_incl_lock_wait': round(t1 - t0, 1), 'probes': round(t2 - t1, 1),
                              'children': round(time.time() - t2, 1)}
-    lines = [model_line(k, cfgname, shape, imgs, ops, facts) for k, (cfgname, shape, imgs, ops, tag) in enumerate(plan)
-             if tag not in UNMODELLED]
+    lines = [model_line(k, cfgname, shape, imgs, ops, facts, shift=history_flags(shape, tag, ops, cfgname)[0])
+             for k, (cfgname, shape, imgs, ops, tag) in enumerate(plan)]
     mod = run_model_parallel(PROP, lines, jobs=6)
 
     pv, cv = [], []
@@ -556,7 +617,12 @@ def run(chk: Check):
         'C09_no_crash (full statement: no step of any history crashes) is FALSE of the faithful model: '
         'C09_no_crash_refuted (S-C09b); proved instead: C09_save_never_crashes (all histories) and '
         'C09_no_crash_partial (histories in which no save shortens a file under a live cached map)',
-        'C09_image_usable_after_save (full) is FALSE: C09_usable_refuted (S-C09c); proved: C09_usable_partial']
+        'C09_image_usable_after_save (full) is FALSE: C09_usable_refuted (S-C09c: dtype changed, or scale factors '
+        're-computed, on the image\'s own file); proved: C09_usable_partial. A repair is prepared '
+        '(.work/fix_S-C09c.patch, not yet in /repo): once it lands the model re-points the image and the statement '
+        'becomes a full theorem',
+        'C09_files_decode: the file holds written(g, fmt, dtype, v): it decodes to v except when MGH (no scaling) clips '
+        'data of both signs to uint8 (lemma written_val); integer quantisation itself is C02\'s subject']
 
     # ---- vm cross-check of the extracted binary on a small fixed sample
     pairs = []
@@ -565,7 +631,8 @@ def run(chk: Check):
         cfgname, shape, imgs, ops, tag = plan[k]
         mline = mod.get(str(k), '')
         if mline.startswith('ok'):
-            pairs.append((coq_case(cfgname, shape, imgs, ops, mline.split()[1:]), f'case {k}'))
+            pairs.append((coq_case(cfgname, shape, imgs, ops, mline.split()[1:], history_flags(shape, tag, ops, cfgname)[0]),
+                          f'case {k}'))
     imports = ('From Coq Require Import ZArith List Bool. Import ListNotations. Open Scope Z_scope.\n'
                'From NV Require Import C09.Model C09.Tables C09.VmCheck.\n')
     ncase, bad = vm_crosscheck(PROP, imports, pairs)
@@ -578,14 +645,17 @@ def run(chk: Check):
 
 
 # --------------------------------------------------------------------------- vm cross-check terms
-def coq_case(cfgname, shape, imgs, ops, mtoks):
+def coq_case(cfgname, shape, imgs, ops, mtoks, shift=0):
     fm = {'N': 'Nii', 'P': 'Pair', 'M': 'Mgh', 'A': 'Spm'}
     paths = CONFIGS[cfgname]
     n = int(np.prod(shape))
     ps = '[' + '; '.join(f"mkP {fm[p['fmt']]} {'true' if p['gz'] else 'false'}" for p in paths) + ']'
     fs = '[' + '; '.join('None' if p['init'] is None else
-                         f"Some (mkK (Some {p['init'][0]}%nat) {p['init'][1].upper()} {p['init'][2]}%nat)"
+                         (f"Some (mkK (Some {p['init'][0]}%nat) I2 {p['init'][2]}%nat 1%nat)" if p['init'][1] == 'i2s' else
+                          f"Some (mkK (Some {p['init'][0]}%nat) {p['init'][1].upper()} {p['init'][2]}%nat 0%nat)")
                          for p in paths if p['link'] is None) + ']'
+    rows, _ = scale_table(shape, shift)
+    sc = '[' + '; '.join(f'({fm[f]}, {d.upper()}, {v}%nat, {k}%nat)' for f, d, v, k in rows) + ']'
     fids = '[' + '; '.join(f'{i}%nat' for i in file_ids(paths)) + ']'
     im = '[' + '; '.join('None' if s is None else
                          f"Some (mkI (SArray (Some {s['v']}%nat)) {fm[s['fmt']]} {s['dt'].upper()} {s['aff']}%nat CNone)"
@@ -597,7 +667,10 @@ def coq_case(cfgname, shape, imgs, ops, mtoks):
             return f"Load {t[1]}%nat {t[2]}%nat {'true' if t[3] == 'T' else 'false'}"
         if k == 'S':
             return f'Save {t[1]}%nat {t[2]}%nat'
-        return {'F': 'Fdata', 'U': 'Uncache', 'E': 'EditHdr', 'D': 'SetDtype', 'B': 'ToBytes', 'X': 'SaveFull'}[k] + f' {t[1]}%nat'
+        if k == 'W':
+            return f'SaveU8 {t[1]}%nat {t[2]}%nat'
+        return {'F': 'Fdata', 'U': 'Uncache', 'E': 'EditHdr', 'D': 'SetDtype', 'B': 'ToBytes', 'X': 'SaveFull',
+                'I': 'SetInt'}[k] + f' {t[1]}%nat'
 
     def v(x):
         return 'None' if x == 'G' else f'(Some {x}%nat)'
@@ -609,16 +682,17 @@ def coq_case(cfgname, shape, imgs, ops, mtoks):
         if p[0] == 'val':
             return f'OVal {v(p[1])}'
         if p[0] == 'saved':
-            return f'OSaved {p[1]}%nat {v(p[2])} {p[3].upper()} {p[4]}%nat'
+            return f'OSaved {p[1]}%nat {v(p[2])} {p[3].upper()} {p[4]}%nat {p[5]}%nat'
         if p[0] == 'bytes':
             return f'OBytes {v(p[1])} {p[2].upper()} {p[3]}%nat'
         if p[0] == 'ref':
             return 'ORefused ' + {'noimage': 'ENoImage', 'nofile': 'ENoFile', 'short_read': 'EShortRead',
                                   'no_conversion': 'ENoConversion', 'not_serializable': 'ENotSerializable',
-                                  'nospace': 'ENoSpace'}[p[1]]
+                                  'nospace': 'ENoSpace', 'writer': 'EWriter'}[p[1]]
         return {'crash': 'OCrash', 'dead': 'ODead'}[p[0]]
 
-    return (f"check_case (platform_cfg {n} {ps} {fids} true) (mkW {fs} {im} false) "
+    return (f"check_case (platform_cfg {n} {ps} {fids} true {sc} {'true' if shift else 'false'} "
+            f"{'true' if len(shape) < 3 else 'false'}) (mkW {fs} {im} false) "
             f"[{'; '.join(op(t) for t in ops)}] [{'; '.join(out(t) for t in mtoks)}]")
 
 
@@ -634,13 +708,14 @@ def replay(chk, obj):
         print('nothing to replay:', obj.get('predicate'))
         return 1
     facts = measure_facts(chk.workdir)
-    modelled = not any(t[0] in 'IW' for t in case['ops']) and not case['config'].startswith('lowdim')   # predicate only
+    shift = 10 if any(t[0] == 'W' for t in case['ops']) else 0
+    approx = history_flags(tuple(case['shape']), '', case['ops'], case['config'])[1]
     job = dict(id=0, shape=case['shape'], paths=CONFIGS[case['config']], imgs=case['imgs'], ops=case['ops'],
-               shift=10 if any(t[0] == 'W' for t in case['ops']) else 0, approx=not modelled)
+               shift=shift, approx=approx, scales=scale_table(tuple(case['shape']), shift)[1])
     impl, stats = run_children([job], chk.workdir, 1)
     r = impl['0']
     chk.build(gen_tables=gen_tables)
-    mod = run_model(PROP, [model_line(0, case['config'], tuple(case['shape']), case['imgs'], case['ops'], facts)])
+    mod = run_model(PROP, [model_line(0, case['config'], tuple(case['shape']), case['imgs'], case['ops'], facts, shift=shift)])
     itoks = r['res'] + ['dead'] * (len(case['ops']) - len(r['res']))
     mtoks = mod.get('0', '<missing>').split()[1:]
     print('config :', case['config'], case['shape'])
@@ -651,7 +726,7 @@ def replay(chk, obj):
     print('predicate lines:', r['pred'])
     import shutil
     shutil.rmtree(chk.workdir, ignore_errors=True)
-    modelled = not any(t[0] in 'IW' for t in case['ops']) and not case['config'].startswith('lowdim')   # predicate only
+    modelled = True
     bad = r['status'] == 'crashed' or bool(r['pred']) or (modelled and (len(mtoks) != len(itoks) or
                                                                           not all(tok_match(m, i) for m, i in zip(mtoks, itoks))))
     print('property/correspondence fails on this history' if bad else 'holds on this history')
